@@ -406,3 +406,21 @@ def register_forwarding(w):
         out["paths"], out["time"] = 1, time.time() - t0
         return out
     w.add_contract(Contract("jax2onnx.plugins.jax.numpy._reduction_utils:<bounded-history>", kind="custom", custom=bounded_history, props=["C19"], witnesses=["C19_reduction_kwargs_history_family"]))
+
+
+    # ---- bounded stand-in (never counted as proved): keyword arguments of @onnx_function targets
+    def bounded_targets(world, c, out):
+        import time
+        from pyvc.run import run_witness
+        t0 = time.time()
+        holds, detail = run_witness("C19_function_target_kwargs_family", timeout=1200)
+        d = {"oid": "jax2onnx.plugins.plugin_system:FunctionPlugin._make_patch_fn#bounded:keyword_arguments_of_function_targets_reach_the_body_or_are_rejected", "kind": "bounded",
+             "status": "discharged" if holds else ("refuted" if holds is False else "unknown"), "backend": "enumerated", "time": time.time() - t0, "instances": 1, "trivial": 0,
+             "bounded": "19 call forms of 3 @onnx_function functions and 1 module: default, explicit default, explicit None with a non-None default, other static values, two call sites",
+             "note": f"the tracing-time substitute of an @onnx_function target (closure built by _make_patch_fn) is not under contract; the real export is run on the enumerated call forms; {detail}"[:500]}
+        if holds is False:
+            d.update(args={"witness": "C19_function_target_kwargs_family"}, replay={"reproduced": True, "detail": detail}, formula="", model=detail)
+        out["obls"].append(d)
+        out["paths"], out["time"] = 1, time.time() - t0
+        return out
+    w.add_contract(Contract("jax2onnx.plugins.plugin_system:<bounded-function-target-kwargs>", kind="custom", custom=bounded_targets, props=["C19"], witnesses=["C19_function_target_kwargs_family"]))
